@@ -127,7 +127,10 @@ CLAIMED["C02"] = dict(
          "the source execution returns a value and names reason k iff the source execution fails with k, the first failing "
          "operation in evaluation order (untaken branches, unselected arms, short-circuited operands are compiled in the model "
          "and contribute nothing). PARTIAL: source locations are not part of the program-level model (the builder-level theorems "
-         "cover the location bits); outside the fragment the program-level statement is explored on generated programs.",
+         "cover the location bits): at program level the reported location is compared with the spans check.rs records for the "
+         "operations that can raise the reported reason (exact when there is one) and the operation at that location must be "
+         "reached before the first failure in the Lean source semantics; shifts by an amount held in 32 wires must fail exactly "
+         "from the width on; outside the fragment the program-level statement is explored on generated programs.",
     design_ref="DESIGN.md §6 C02",
     note="trusted: as C04 (same builder model/correspondence); Model/Builder.lean panic section models circuit.rs:646-758 AFTER the "
          "repair 4447ea8 (the unrepaired code violates the property: see known_findings.json)",
